@@ -278,6 +278,13 @@ CORPUS = [
     {"name": "corpus-split-entry-then-all", "limit": 128, "seed": 4243, "nedits": 3,
      "script": [["importance", 0, "p", 3.0], ["importance_all", 0, 1.0], ["print_in_data_block", "imp", True]],
      "text": "shared entries with comments\n1 0 -1 imp:n,p=1 $ inside\n2 0 1 imp:n,p=0 $ graveyard\n\n1 so 1\n\nmode n p\n\n"},
+    # seeded C07c: data-block entry shared by two particles, both set, one set back (observed in between)
+    {"name": "corpus-shared-data-entry-set-back", "limit": 128, "seed": 4250, "nedits": 3,
+     "script": [["importance", 1, "n", 5.0], ["importance", 1, "p", 5.0], ["importance", 1, "n", 1.0]],
+     "text": "shared data-block entry\n1 0 -1\n2 0 1 -2\n3 0 2\n\n1 so 1\n2 so 2\n\nmode n p\nimp:n,p 1 1 0\n\n"},
+    {"name": "corpus-shared-data-entry-set-back-p", "limit": 128, "seed": 4251, "nedits": 3,
+     "script": [["importance", 1, "n", 5.0], ["importance", 1, "p", 5.0], ["importance", 1, "p", 1.0]],
+     "text": "shared data-block entry\n1 0 -1\n2 0 1 -2\n3 0 2\n\n1 so 1\n2 so 2\n\nmode n p\nimp:n,p 1 1 0\n\n"},
     # 3f161a1: a line break after a cell modifier's value was replaced by a blank (generation 2 differed at 80 columns)
     {"name": "corpus-modifier-line-break", "limit": 80, "seed": 891262, "nedits": 0, "script": [],
      "text": "line break after vol\n837 0 (927 :     113 ) 8   113    113 -8   imp:n=2.0000     Imp:P=1 vol=31.0\n     U 20\n"
